@@ -99,7 +99,7 @@ def cases(tier, seed):
                 yield {"space": "exhaustive", "pseed": 1000 + n, "nops": n, "dtype": "int64", "anns": anns, "chain_only": True,
                        "shape": [4, 4], "chunks": [[2, 2], [1, 3]], "root": "ones", "lat": key}
     # ---- random stacks ---------------------------------------------------------------------------------------------------
-    n = 1200 if tier == "quick" else 20000
+    n = 2500 if tier == "quick" else 50000
     for i in range(n):
         nops = rng.choice((2, 2, 3, 3, 4, 4, 5, 6))
         mode = rng.random()
@@ -339,7 +339,10 @@ def run_case(case, ctx):
     if o is not None and absorbed:
         graphs.append(("hlg-cull-after-optimize_blockwise", o))
     for what, g in graphs:
-        for S in subsets:
+        subs = subsets
+        if g is not h and len(subsets) > 8:  # the complete subset space is walked on the unfused graph only
+            subs = [subsets[i] for i in sorted(rng.sample(range(len(subsets)), 8))]
+        for S in subs:
             try:
                 c = g.cull(set(S))
                 cd = dict(c)
